@@ -420,13 +420,11 @@ DoWithdraw(s, e) ==
     ELSE IF to \notin DOMAIN s.bal THEN Fail(s)
     ELSE Done([PayC(s, REQ, to, earned) EXCEPT
                  !.earned = Del(s.earned, e.prov),
-                 \* DeleteOwnerEarnedFees only when the two tallies are equal; otherwise
-                 \* SetOwnerEarnedFees(own - earned) writes the denoms that are still
-                 \* positive and leaves the stored entry of a denom that dropped to zero
-                 \* as it was (finding F29)
-                 !.ownerEarned = IF own = earned THEN Del(s.ownerEarned, e.who)
-                                 ELSE Put(s.ownerEarned, e.who,
-                                          [d \in DOMAIN own |-> IF d \in DOMAIN left THEN left[d] ELSE own[d]])])
+                 \* DeleteOwnerEarnedFees, then SetOwnerEarnedFees(own - earned) unless the
+                 \* two tallies are equal (fix a72912e; before it the stored entry of a denom
+                 \* that dropped to zero survived: finding F35)
+                 !.ownerEarned = IF left = EmptyF THEN Del(s.ownerEarned, e.who)
+                                 ELSE Put(s.ownerEarned, e.who, left)])
 
 (* fees.go: WithdrawEarnedFees with an empty provider: everything the owner's
    providers earned.  Not reachable through MsgWithdrawEarnedFees (see above);
@@ -677,20 +675,12 @@ F4Step(s, e, t, d) ==
        SumOver([r \in rs |-> ListPrice(s, t, r) - t.req[r].fee], rs)
   ELSE 0
 
-(* F29 pattern: a provider-scoped withdrawal brings denom d of the owner tally
-   to zero while another denom stays, so SetOwnerEarnedFees never rewrites d *)
-F29Now(s, e, o, d) ==
-  /\ e.name = "Withdraw" /\ e.ok /\ e.who = o
-  /\ Get(s.ownerEarned, o, EmptyF) # Get(s.earned, e.prov, EmptyF)
-  /\ Amt(Get(s.earned, e.prov, EmptyF), d) > 0
-  /\ Amt(Get(s.ownerEarned, o, EmptyF), d) = Amt(Get(s.earned, e.prov, EmptyF), d)
-
 (* the request a module-service call creates and answers in one message *)
 ModuleAnswered(s, e) ==
   IF e.name = "Call" /\ e.ok /\ e.svc = OSVC THEN {ReqId(CtxId(s.seq + 1), 1, 0)} ELSE {}
 
 GhostInit == [ans |-> EmptyF, exp |-> EmptyF, batchAt |-> EmptyF, modified |-> EmptyF,
-              intr |-> EmptyF, cbn |-> EmptyF, expd |-> EmptyF, f4 |-> EmptyF, f29 |-> EmptyF]
+              intr |-> EmptyF, cbn |-> EmptyF, expd |-> EmptyF, f4 |-> EmptyF]
 
 CountCbs(e, id, n) == Cardinality({i \in DOMAIN e.cbs : e.cbs[i].ctx = id /\ e.cbs[i].batch = n})
 
@@ -722,11 +712,7 @@ GhostStep(g, s, e, t) ==
                IF Completes(s, t, id)
                THEN bump(Get(g.expd, id, EmptyF), id, s.ctx[id].batch, 1)
                ELSE Get(g.expd, id, EmptyF)],
-   f4 |-> [d \in DenomsOf(t) |-> Amt(g.f4, d) + F4Step(s, e, t, d)],
-   f29 |-> [o \in DOMAIN g.f29 \cup (IF e.name = "Withdraw" /\ e.ok THEN {e.who} ELSE {}) |->
-              IF e.name = "ModWithdrawAll" /\ e.ok /\ e.who = o THEN EmptyF
-              ELSE [d \in DenomsOf(t) |->
-                      Amt(Get(g.f29, o, EmptyF), d) + (IF F29Now(s, e, o, d) THEN Amt(Get(s.earned, e.prov, EmptyF), d) ELSE 0)]]]
+   f4 |-> [d \in DenomsOf(t) |-> Amt(g.f4, d) + F4Step(s, e, t, d)]]
 
 -----------------------------------------------------------------------------
 (***************************************************************************)
@@ -761,18 +747,12 @@ C07_RequestEscrow(t) == \A d \in DenomsOf(t) : BalD(t, REQ, d) = Liabilities(t, 
 C07_RequestEscrow_ModF4(t, g) ==
   \A d \in DenomsOf(t) : BalD(t, REQ, d) = Liabilities(t, d) + Amt(g.f4, d)
 
-(* C07: provider-side and owner-side tallies agree.  relax = TRUE: modulo
-   finding F29 (a denom of the owner tally that a provider-scoped withdrawal
-   brings to zero keeps its old stored value): the owner tally may exceed the
-   providers' sum by what the ghost recorded as left behind *)
-OwnerTallyX(t, g, relax) ==
+(* C07: provider-side and owner-side tallies agree *)
+C07_OwnerTally(t) ==
   /\ DOMAIN t.earned \subseteq DOMAIN t.owner
   /\ \A o \in DOMAIN t.ownerEarned \cup Range(t.owner) : \A d \in DenomsOf(t) :
        LET ps == {p \in DOMAIN t.owner : t.owner[p] = o} IN
        OwnerEarnedOf(t, o, d) = SumOver([p \in ps |-> EarnedOf(t, p, d)], ps)
-                                + (IF relax THEN Amt(Get(g.f29, o, EmptyF), d) ELSE 0)
-C07_OwnerTally(t) == OwnerTallyX(t, [f29 |-> EmptyF], FALSE)
-C07_OwnerTally_ModF29(t, g) == OwnerTallyX(t, g, TRUE)
 
 (* C07: in the end-blocker every account pays exactly the fees recorded on the
    requests issued for it and gets back exactly the fees of its requests that
@@ -832,10 +812,8 @@ C07_Expire(s, e, t) ==
        /\ Delta(s, t, FEEP) = slashed
        /\ \A d \in DenomsOf(t) \ {D} : DeltaD(s, t, DEP, d) = 0 /\ DeltaD(s, t, FEEP, d) = 0
 
-(* C07: a withdrawal pays exactly the deleted tallies to the withdraw address.
-   relax = TRUE: modulo F29, the owner-side entry of a denom that reaches zero
-   may keep its old value *)
-WithdrawX(s, e, t, relax) ==
+(* C07: a withdrawal pays exactly the deleted tallies to the withdraw address *)
+C07_Withdraw(s, e, t) ==
   (e.name = "Withdraw" /\ e.ok) =>
     LET to == Get(s.withdraw, e.who, e.who) IN
     /\ e.prov \notin DOMAIN t.earned
@@ -844,15 +822,10 @@ WithdrawX(s, e, t, relax) ==
          EarnedOf(t, p, d) = EarnedOf(s, p, d)
     /\ \A d \in DenomsOf(t) :
          LET paid == EarnedOf(s, e.prov, d) IN
-         /\ \/ OwnerEarnedOf(t, e.who, d) = OwnerEarnedOf(s, e.who, d) - paid
-            \/ /\ relax /\ paid > 0 /\ OwnerEarnedOf(s, e.who, d) = paid
-               /\ OwnerEarnedOf(t, e.who, d) = paid
-               /\ Get(s.ownerEarned, e.who, EmptyF) # Get(s.earned, e.prov, EmptyF)
+         /\ OwnerEarnedOf(t, e.who, d) = OwnerEarnedOf(s, e.who, d) - paid
          /\ DeltaD(s, t, REQ, d) = 0 - paid
          /\ (to # REQ) => DeltaD(s, t, to, d) = paid
     /\ OthersSame(s, t, {<<REQ, d>> : d \in DenomsOf(t)} \cup {<<to, d>> : d \in DenomsOf(t)})
-C07_Withdraw(s, e, t) == WithdrawX(s, e, t, FALSE)
-C07_Withdraw_ModF29(s, e, t) == WithdrawX(s, e, t, TRUE)
 
 (* C07 frame: nothing is minted or burnt, deposits move only between the owner
    and the deposit escrow and by exactly the stated amount, third parties are
@@ -1275,7 +1248,7 @@ SetupC == << BSpec("u1", "u1", 8, 4, 4, 0, 0, 4, 0, 1), BSpec("u2", "u2", 6, 3, 
 SetupD == << BSpec("u1", "u1", 8, 4, 2, 0, 1000, 4, 0, 1),
              [pdenom |-> "btc"] @@ BSpec("u2", "u2", 6, 0, 4, 0, 0, 4, 0, 1) >>
 (* two providers of ONE owner, u2 priced in btc (exchange rate needed): fees and
-   tallies in two denoms — finding F29 *)
+   tallies in two denoms (regression universe of finding F35, fixed by a72912e) *)
 SetupE == << BSpec("u1", "u1", 8, 4, 4, 0, 0, 4, 0, 1),
              [pdenom |-> "btc"] @@ BSpec("u2", "u1", 4, 2, 4, 0, 0, 4, 0, 1) >>
 RateValsNone == {}
@@ -1317,8 +1290,6 @@ Inv_C07_RequestEscrow == C07_RequestEscrow(st)
    reaches a state, action properties on every transition *)
 Act_C07_RequestEscrow_ModF4 == [][C07_RequestEscrow_ModF4(st', gh')]_vars
 Inv_C07_OwnerTally == C07_OwnerTally(st)
-Act_C07_OwnerTally_ModF29 == [][C07_OwnerTally_ModF29(st', gh')]_vars
-Act_C07_Withdraw_ModF29 == [][C07_Withdraw_ModF29(st, ev', st')]_vars
 Inv_C13_QueueSound == C13_QueueSound(st)
 Inv_C13_QueueComplete == C13_QueueComplete(st)
 Act_C13_NoHalt == [][C13_NoHalt(ev')]_vars
